@@ -26,6 +26,10 @@ INSTANCES = {
     "text": (dict(Names={"a"}, MaxText=2, MaxIgn=1, TextKinds={"Text", "CData"}, IgnKinds={"Comment", "PI", "Decl", "DocType"}),
              {"quick": dict(AttrLists="{<<>>}", OccBudget="<<2, 1>>"),
               "thorough": dict(AttrLists="{<<>>}", OccBudget="<<3, 1>>")}),
+    # names whose identifiers / struct names collide: the inputs on which internal order is observable
+    "names": (dict(Names={"Foo", "foo"}, RootName="r"),
+              {"quick": dict(AttrLists="{<<>>}", OccBudget="<<4, 3>>"),
+               "thorough": dict(AttrLists='{<<>>, <<"foo">>}', OccBudget="<<4, 3>>")}),
     # one fault of each kind injected at any point, both operations
     "errors": (dict(Names={"a"}, Faults=True, EmptyDocs=True, MaxText=1, MaxIgn=1, TextKinds={"Text"}, IgnKinds={"Comment"}),
                {"quick": dict(AttrLists="{<<>>}", OccBudget="<<2, 1>>"),
